@@ -27,6 +27,12 @@ CHECKS = {
  "C10": (True, "fault_enumeration", "deterministic simulation: stored-byte fault injection (torn/short writes, bit flips, stale schema, garbage) on real snapshots; decoded values driven through an operation battery",
    "Documents written by real sessions are damaged the way disks and version skew damage them; for documents up to 160 bytes every truncation length and every single-bit flip is enumerated, larger ones are sampled, plus stale-schema faults on the JSON tree and garbage sectors. Each document must be rejected or decode to values on which printing, repr, truthiness, equality, re-serialisation and a battery of scripts are crash-free (worker isolation makes fatal errors observable).",
    "The battery is a fixed list of 8 direct operations and 42 scripts (a seeded third per value shape, once per distinct shape per run). 'VM internal error' results are errors, not crashes.", "DESIGN.md §4 C10", ENGINE_SESSION),
+ "C06": (True, "exploration", "deterministic simulation: twin worlds (quiet vs interfered), dice ledger with source identity, resume from captured generator state at every command boundary",
+   "The same seeded session runs in a quiet world, in noisy worlds (other seeded/unseeded VMs, direct draws on and reseeding of both package-level generators = clock jump, observation bursts) and resumed at every command boundary from GetCurSeed() into a fresh context; all outcomes incl. detail text and the 16 generator bytes must agree; the dice ledger (Roll hook) shows that every die of the seeded context came from its own source and that no package-level generator advanced.",
+   "Dict rendering order is owned by the sorted-Range seam. Sessions are generated (all dice families, sub-VM paths, random array methods).", "DESIGN.md §4 C06", ENGINE_SESSION),
+ "C07": (True, "fault_enumeration", "deterministic simulation: simulated clock (instruction + die ticks) as work meter and watchdog; abort point swept over every budget value",
+   "Work is measured in ticks of the simulated clock, so 'bounded work' is a deterministic count and a hang is a replayable event. For each generated program every OpCountLimit k <= min(N+1,400) is tried (error or the full outcome, within 16k+4096 ticks), the fault-free counter must cover all instructions and dice, adversarial programs run under budgets {small, 30000} x normal/min/max mode, ParseExprLimit is swept, and scaled program families with values known by construction are taken across each built-in capacity (known value or error, never a truncated program).",
+   "The tick bound constant is the check's. Capacity families are generator-driven.", "DESIGN.md §4 C07", ENGINE_SESSION),
 }
 
 NA = {
